@@ -42,6 +42,8 @@ fn yaml(kind: &str, port: u16) -> String {
     y.push_str("  strategy:\n    any: null\n");
     if kind == "offline" {
         y.push_str("  authentication:\n    disabled: null\n");
+    } else if let Some(sid) = kind.strip_prefix("mojang:") {
+        y.push_str(&format!("  authentication:\n    mojang:\n      server_id: {}\n", serde_json::to_string(sid).unwrap()));
     } else {
         y.push_str(&format!("  authentication:\n    fixed:\n      profile:\n        id: \"{FIXED_UUID}\"\n        name: \"{FIXED_NAME}\"\n        properties:\n        - name: \"textures\"\n          value: \"dGV4dHVyZXM=\"\n          signature: \"c2ln\"\n"));
     }
@@ -52,6 +54,10 @@ fn yaml(kind: &str, port: u16) -> String {
 /// kind: full (everything configured, secret in the secret file) | proxy (full + PROXY protocol) | offline
 /// (authentication disabled, no secret, no limiter) | defaults (full, but limits left at their defaults)
 pub fn spawn(kind: &str) -> App {
+    spawn_env(kind, &[])
+}
+
+pub fn spawn_env(kind: &str, env: &[(&str, String)]) -> App {
     let port = free_port();
     let dir = format!("{}/target/app-{}-{port}", common::VERIF_ROOT, std::process::id());
     std::fs::create_dir_all(&dir).expect("config dir");
@@ -64,6 +70,9 @@ pub fn spawn(kind: &str) -> App {
     cmd.arg("C14-child-read").env("CONFIG_FILE", format!("{dir}/config.yaml")).env("AUTH_SECRET_FILE", format!("{dir}/auth_secret")).env_remove("ENV_PREFIX");
     for (k, _) in std::env::vars().filter(|(k, _)| k.starts_with("PASSAGE_")) {
         cmd.env_remove(k);
+    }
+    for (k, v) in env {
+        cmd.env(k, v);
     }
     let mut child = cmd.stdout(std::process::Stdio::null()).stderr(std::process::Stdio::piped()).spawn().expect("spawn child");
     let addr: SocketAddr = format!("127.0.0.1:{port}").parse().unwrap();
@@ -497,4 +506,108 @@ pub fn host(rep: &Report, prop: &str, _thorough: bool) {
     rep.set("app_configurations", json!(kinds));
     rep.set("app_connections", json!(n));
     rep.assume("application part: passage::start in a child process, its configuration read by Config::read() from a YAML file and a secret file written for the run; the expected behaviour is read off that configuration by hand (routing table, messages, limits), not computed by the code under test");
+}
+
+/// C11 / C12: the application with the Mojang adapter (its has-joined requests go to a loopback mock through the
+/// add-only origin override), one fresh process per configured server id. The first two logins of every process
+/// overlap (both clients have sent everything up to the session Cookie Response before either reads); further
+/// logins follow one by one. Every connection must cause exactly one request, for its claimed name, carrying the
+/// hash of the *configured* server id, its own shared secret and the public key it was itself sent.
+pub fn mojang_host(rep: &Report, prop: &str) {
+    for v in ["http_proxy", "HTTP_PROXY", "https_proxy", "HTTPS_PROXY", "all_proxy", "ALL_PROXY"] {
+        unsafe { std::env::remove_var(v) };
+    }
+    let ids: Vec<&str> = vec!["", "lobby", "exactly-twenty-chars", "twenty-one-characters", "a server id of forty-three characters, long", "0042"];
+    let names: Vec<&str> = if prop == "C12" { vec!["Plain_Name", "a&serverId=1", "x?y#z", "%26%3D%23", "n m+o", "../../x", "ü&ß=1"] } else { vec!["Plain_Name", "Second_Name"] };
+    let out: Mutex<Vec<Viol>> = Mutex::new(vec![]);
+    let conns = std::sync::atomic::AtomicU64::new(0);
+    common::par_for(ids.len(), |i| {
+        let sid = ids[i];
+        run_local(async {
+            let log = std::sync::Arc::new(Mutex::new(vec![]));
+            let mock = crate::c12::mock_server(log.clone()).await;
+            let kind = format!("mojang:{sid}");
+            let app = tokio::task::spawn_blocking({
+                let kind = kind.clone();
+                move || spawn_env(&kind, &[("PASSAGE_VERIF_SESSION_URL", format!("http://{mock}"))])
+            })
+            .await
+            .expect("spawn");
+            let addr = app.addr;
+            // (claimed name, secret, public key received, admitted as)
+            let mut done: Vec<(String, [u8; 16], Vec<u8>, Option<String>, String)> = vec![];
+            // the first two logins of the process, overlapping
+            let mut early = vec![];
+            for (k, name) in ["Early_One", "Early_Two"].iter().enumerate() {
+                let mut secret = *b"early-secret-00x";
+                secret[15] = b'0' + k as u8;
+                let p = LoginParams { name: name.to_string(), secret, wait: Duration::from_secs(4), ..Default::default() };
+                if let Ok(mut c) = McClient::connect(addr, None).await {
+                    c.phase = Phase::Login;
+                    let burst = [codec::sb_handshake(769, &p.host, p.port, 2), codec::sb_login_start(&p.name, p.uuid), codec::sb_login_cookie_response("passage:session", None)].concat();
+                    let _ = c.send_raw(&burst).await;
+                    early.push((c, p));
+                }
+            }
+            for (mut c, p) in early {
+                let mut o = LoginOutcome { packets: vec![], stage: Stage::Connected, error: None };
+                for _ in 0..2 {
+                    match c.read_packet(p.wait).await {
+                        Ok(pk) => o.packets.push(pk),
+                        Err(e) => o.error = Some(e),
+                    }
+                }
+                if o.error.is_none() && matches!(o.packets.last(), Some(Pkt::EncryptionRequest { .. })) {
+                    o.stage = Stage::EncryptionRequestReceived;
+                    c.login(&p, Stage::EncryptionRequestReceived, Stage::LoginSuccessReceived, &mut o).await;
+                }
+                let key = o.packets.iter().find_map(|p| if let Pkt::EncryptionRequest { public_key, .. } = p { Some(public_key.clone()) } else { None }).unwrap_or_default();
+                let granted = o.packets.iter().find_map(|p| if let Pkt::LoginSuccess { name, .. } = p { Some(name.clone()) } else { None });
+                done.push((p.name.clone(), p.secret, key, granted, format!("one of the first two, overlapping logins of the process ({:?} {:?})", o.stage, o.error)));
+            }
+            for (k, name) in names.iter().enumerate() {
+                let mut secret = *b"later-secret-00x";
+                secret[15] = b'a' + k as u8;
+                let p = LoginParams { name: name.to_string(), secret, wait: Duration::from_secs(4), ..Default::default() };
+                let mut o = LoginOutcome { packets: vec![], stage: Stage::Connected, error: None };
+                if let Ok(mut c) = McClient::connect(addr, None).await {
+                    c.login(&p, Stage::Connected, Stage::LoginSuccessReceived, &mut o).await;
+                }
+                let key = o.packets.iter().find_map(|p| if let Pkt::EncryptionRequest { public_key, .. } = p { Some(public_key.clone()) } else { None }).unwrap_or_default();
+                let granted = o.packets.iter().find_map(|p| if let Pkt::LoginSuccess { name, .. } = p { Some(name.clone()) } else { None });
+                done.push((p.name.clone(), p.secret, key, granted, format!("a later login ({:?} {:?})", o.stage, o.error)));
+            }
+            conns.fetch_add(done.len() as u64, std::sync::atomic::Ordering::Relaxed);
+            let mut seen: Vec<String> = log.lock().unwrap().clone();
+            for (name, secret, key, granted, what) in &done {
+                let hash = enumk::c11::reference(sid, secret, key);
+                let replay = json!({"app": {"kind": kind, "case": "has-joined", "name": name}});
+                match seen.iter().position(|line| crate::c12::judge_request(line, name, &hash).is_none()) {
+                    Some(i) => {
+                        seen.remove(i);
+                    }
+                    None => out.lock().unwrap().push((
+                        "app:no-has-joined-request-with-this-connections-hash".into(),
+                        format!("server id {sid:?} configured in the YAML file: the connection claiming {name:?} ({what}) caused no has-joined request for that name carrying serverId={hash} (admitted as {granted:?}); requests not matched by any connection: {seen:?}"),
+                        replay.clone(),
+                    )),
+                }
+                if granted.as_deref() != Some("FromSessionServer") {
+                    out.lock().unwrap().push(("app:vouched-player-not-admitted".into(), format!("server id {sid:?}: the connection claiming {name:?} ({what}) was admitted as {granted:?}; the session server vouches for FromSessionServer"), replay));
+                }
+            }
+            if !seen.is_empty() {
+                out.lock().unwrap().push(("app:has-joined-request-of-no-connection".into(), format!("server id {sid:?}: requests that belong to no connection: {seen:?}"), json!({"app": {"kind": kind, "case": "has-joined"}})));
+            }
+            let _ = tokio::task::spawn_blocking(move || stop_app(app)).await;
+        });
+    });
+    for (k, t, replay) in out.into_inner().unwrap() {
+        rep.violation(Violation { key: k, text: t, replay, weight: 7_100_000 });
+    }
+    let n = conns.load(std::sync::atomic::Ordering::Relaxed);
+    rep.require("logins through the application with the Mojang adapter", n, 10);
+    rep.set("app_mojang_server_ids", json!(ids));
+    rep.set("app_mojang_connections", json!(n));
+    rep.assume("application part: one fresh process per configured server id (passage::start, configuration read by Config::read() from YAML), session requests to a loopback mock through the add-only origin override of passage-adapters-http");
 }
